@@ -158,7 +158,7 @@ Fixpoint linearize (x : expr) : option lin :=
                | Some p, Some q => if is_const q && negb (Qeqb (snd q) 0) then Some (lscale (/ snd q) p) else None
                | _, _ => None end
   | Pow a k => match k with
-               | O => Some (lconst 1)
+               | O => match linearize a with Some _ => Some (lconst 1) | None => None end
                | S O => linearize a
                | _ => match linearize a with
                       | Some p => if is_const p then Some (lconst (qpow (snd p) k)) else None
